@@ -49,7 +49,7 @@ INT_TYPES = {
 SIZEOF = {"char": 1, "signed char": 1, "unsigned char": 1, "short": 2, "unsigned short": 2, "int": 4,
           "unsigned int": 4, "long": 8, "unsigned long": 8, "long long": 8, "unsigned long long": 8,
           "float": 4, "double": 8, "_Bool": 1, "bool": 1, "void": 1,
-          "rtosc_arg_val_t": 24}      # one slot of an argument-value list (type tag + 16-byte union), for pointer steps
+          "rtosc_arg_val_t": 24, "rtosc_arg_t": 16}      # one slot of an argument-value list (type tag + 16-byte union), for pointer steps
 
 
 for _n, _b, _s in (("uint8_t", 8, False), ("int8_t", 8, True), ("uint16_t", 16, False), ("int16_t", 16, True),
@@ -286,6 +286,8 @@ class Eval:
             base = self.ev(ks[0])
             idx = self.ev(ks[1])
             ct = ctype(A.qtype(ks[0]))
+            if isinstance(base, str) and isinstance(idx, int) and 0 <= idx <= len(base):
+                return ord(base[idx]) if idx < len(base) else 0      # a string literal (handed out by a hook) read as a char array
             if ct[0] != "ptr" or not ct[1] or not isinstance(base, int) or not isinstance(idx, int):
                 raise Unknown("subscript not evaluable", n)
             return self.deref(base + idx * ct[1], n)
